@@ -75,6 +75,8 @@ def data_tensor(family, shape, rank, seed=0):
         x = V.generic(shape, seed + 13, signed=False)
         m = V.ints(shape, seed + 15, 2)
         return np.where(m > 0, x, 0.0)
+    if family == "small-norm":  # Frobenius norm well below 1 (un-normalised vs relative error confusions)
+        return V.generic(shape, seed + 19) * 0.05
     if family == "all-negative":
         return -V.generic(shape, seed + 17, signed=False)
     raise ValueError(family)
